@@ -1,6 +1,7 @@
 (* C10 model driver.
      r <forced> <meta> <doc1> <doc2>     -> answer for doc1 ; answer for doc2 (parser reuse: no state in the model)
      w <forced> <meta> <hexdoc>          -> ok <langid> <charset> | err <name>     (select_lang)
+     t <rev|dropN> <forced> <meta> <hexdoc>  -> the same with a custom main table (select_lang is parametric in it)
      X <pub|~> <sys|~> <roothex> <textual> <anon>
                                          -> ok <langid> num <n> | ok <langid> idx <hexstring> | err   (xml_select + header_pubid) *)
 open Model
@@ -39,6 +40,18 @@ let () =
        (match select_lang main_table forced meta doc with
         | POk l ->
           let cs = match parse_header main_table forced meta doc with POk hd -> int_of_n hd.h_charset | PErr _ -> -1 in
+          Printf.printf "ok %d %d\n" (int_of_n l.l_id) cs
+        | PErr e -> Printf.printf "err %s\n" (ename e))
+     | ["t"; mode; f; m; h] ->
+       (* wbxml_parser_set_main_table: the standard entries reversed / without the first N *)
+       let rec drop k l = if k <= 0 then l else (match l with [] -> [] | _ :: r -> drop (k - 1) r) in
+       let tbl = if mode = "rev" then List.rev main_table
+                 else drop (int_of_string (String.sub mode 4 (String.length mode - 4))) main_table in
+       let forced = n_of_int (int_of_string f) and meta = n_of_int (int_of_string m) in
+       let doc = bytes_of_hex h in
+       (match select_lang tbl forced meta doc with
+        | POk l ->
+          let cs = match parse_header tbl forced meta doc with POk hd -> int_of_n hd.h_charset | PErr _ -> -1 in
           Printf.printf "ok %d %d\n" (int_of_n l.l_id) cs
         | PErr e -> Printf.printf "err %s\n" (ename e))
      | ["r"; f; m; h1; h2] ->
